@@ -90,7 +90,7 @@ def plan(tier):
 def check(pid, tier, seed):
     run = p_kani.check(pid, tier, seed, SPECS, plan(tier), FUNCS,
                        {"operands": "full 64-bit unless stated per harness", "unwind": "4-6 (BigInt digit loops, <= 2 limbs)"},
-                       ASSUME, RULE, slots=5)
+                       ASSUME, RULE, slots=5, timeout=(None if tier == "quick" else 6000))
     kernel_kinds(run)
     return run
 
